@@ -5,15 +5,45 @@ import re
 from common import standard_prologue, run_sharded, HX, DRV, enc, dec, VERIF
 
 CLAIM = {
+    "category": "proof",
     "technique": ("Lean 4 theorems about an executable model of the winnow-based ledger parser (combinators with winnow's "
-                  "backtrack/cut/reset semantics) and of the Display printer + differential correspondence of trees, spans "
-                  "and error offsets against the real parse_ledger / okane format on grammar-directed and malformed text"),
-    "text": "PLACEHOLDER",
-    "note": "PLACEHOLDER",
+                  "backtrack/cut/reset semantics) and of the Display printer + differential correspondence of trees, spans, "
+                  "error offsets and formatted text against the real parse_ledger / okane format on grammar-directed and "
+                  "malformed text, with the property's own oracles evaluated on the real code"),
+    "text": ("PARTIAL. Proof (Lean, all inputs, any display-width function): the entry loop of parse_ledger composed with "
+             "FormatOptions::format reads back every list of entries that round-trip one by one (C05_format_parse), hence "
+             "parse(format t) = parse t and format(format t) = format t for such ledgers (C05_roundtrip_partial, "
+             "C05_idempotent_partial); the per-construct round trip parse(print x ++ rest) = ok x rest is proved for the "
+             "directives include, apply tag (key, key: text, key:: expr), end apply tag and top-level comments of any "
+             "number of lines (C05_entry_partial, C05_roundtrip_directives) and for tag-word and key-value metadata lines "
+             "(C05_metadata_partial) and for the posting account (C05_account: words joined by single blanks before any "
+             "admissible follower), each for ALL trees satisfying the decidable predicate wfEntry/wfMetadata. The full "
+             "statements C05_entry_full, C05_image_full, C05_roundtrip_full, C05_idempotent_full, C05_eof_full are kept as "
+             "definitions; the code violates four of them and the negations are proved from kernel-evaluated witnesses "
+             "(not_C05_image_full, not_C05_roundtrip_full, not_C05_idempotent_full: known findings F27/F28, Unicode white "
+             "space the parser does not treat as blank; not_C05_eof_full: account + one blank at end of file, outside the "
+             "grammar). NOT carried by theorems, only by the correspondence stream and the oracles on the real code: the "
+             "round trip of transactions (header, posting line after the account, amounts/value expressions, lots, costs, "
+             "balances, metadata comments), of account and commodity declarations, the image property (parsed trees are "
+             "wfEntry up to canonEntry; checked by the driver on every accepted text), and the acceptance of the documented "
+             "grammar (oracle: every grammar-derived text is accepted by the real parser). The model parser agrees with "
+             "the real one on trees, entry spans, error offsets/line_start and formatted output on every generated text."),
+    "note": ("winnow 0.7.6 combinators, chrono date acceptance, Rust str::trim*/lines and unicode-width are modelled, not "
+             "verified; value expressions and numeric literals are the models of C07/C08 (Okane.ExprSyntax, Okane.Literal). "
+             "doc/syntax.md is read with the repairs of evident informalities listed in the evidence's assumptions. "
+             "Known findings F27, F28 are replayed on every run; F23-F25 were found by this check and are fixed in /repo."),
     "design_ref": "DESIGN.md section 6 C05, Appendix A, Appendix C",
 }
 
-THEOREMS = []
+THEOREMS = ["Okane.C05.C05_format_parse", "Okane.C05.C05_roundtrip_partial", "Okane.C05.C05_idempotent_partial",
+            "Okane.C05.C05_entry_partial", "Okane.C05.C05_metadata_partial", "Okane.C05.C05_roundtrip_directives", "Okane.C05.C05_account",
+            "Okane.C05.not_C05_image_full", "Okane.C05.not_C05_roundtrip_full", "Okane.C05.not_C05_idempotent_full",
+            "Okane.C05.not_C05_eof_full",
+            "Okane.Unparse.parseEntries_format", "Okane.Unparse.parsedIter_nl", "Okane.Unparse.multilineText_rt",
+            "Okane.Unparse.repeat0Loop_list", "Okane.Unparse.include_rt", "Okane.Unparse.applyTag_rt",
+            "Okane.Unparse.endApplyTag_rt", "Okane.Unparse.topComment_rt", "Okane.Unparse.metadataTags_rt",
+            "Okane.Unparse.metadataKv_rt", "Okane.Unparse.metaLine_rt", "Okane.Unparse.restOfLine_rt",
+            "Okane.Unparse.accountLoop", "Okane.Unparse.postingAccount_rt"]
 
 # ------------------------------------------------------------------------------------------------
 # alphabets
